@@ -586,7 +586,13 @@ func c10TrueTile(l *c10LogT, t tlog.Tile) []byte {
 // and only true tiles saved.
 func c10CheckRead(g *Gen, l *c10LogT, n, h int, idx []int64, fs []c10Fault, seed int) {
 	hs, res, r := c10Read(l, h, idx, fs)
-	op := c10Op(n, h, idx, fs, seed)
+	c10CheckOutcome(g, l, n, idx, len(fs) == 0, hs, res, r, "", c10Op(n, h, idx, fs, seed))
+}
+
+// c10CheckOutcome is the property for the outcome of ONE ReadHashes call (on a fresh reader or in the middle of a
+// history of calls on one reader, see util_c10seq.go). honest = the tile server has answered every request made
+// through this reader so far with the true tiles. where is put in front of the info text. Reports at most one failure.
+func c10CheckOutcome(g *Gen, l *c10LogT, n int, idx []int64, honest bool, hs []tlog.Hash, res string, r *c10Reader, where string, ops ...string) bool {
 	inRange := true
 	for _, x := range idx {
 		if x < 0 || x >= tlog.StoredHashIndex(0, int64(n)) {
@@ -594,33 +600,34 @@ func c10CheckRead(g *Gen, l *c10LogT, n, h int, idx []int64, fs []c10Fault, seed
 		}
 	}
 	if res == "panic" {
-		g.Fail("ReadHashes through tiles crashes", "", op)
-		return
+		g.Fail("ReadHashes through tiles crashes", where, ops...)
+		return false
 	}
-	if len(fs) == 0 && inRange {
+	if honest && inRange {
 		if res != "ok" {
-			g.Fail("reading through honestly served tiles fails", res, op)
-			return
+			g.Fail("reading through honestly served tiles fails", where+res, ops...)
+			return false
 		}
 	}
 	if res == "ok" {
 		if len(hs) != len(idx) {
-			g.Fail("ReadHashes through tiles returns the wrong number of hashes", "", op)
-			return
+			g.Fail("ReadHashes through tiles returns the wrong number of hashes", where, ops...)
+			return false
 		}
 		for i, x := range idx {
 			if x < 0 || x >= int64(len(l.st)) || hs[i] != l.st[x] {
-				g.Fail("ReadHashes through tiles returned a hash that is not the true stored hash", fmt.Sprintf("index %d", x), op)
-				return
+				g.Fail("ReadHashes through tiles returned a hash that is not the true stored hash", fmt.Sprintf("%sindex %d", where, x), ops...)
+				return false
 			}
 		}
 	}
 	for i, t := range r.savedT {
 		if !bytes.Equal(r.savedD[i], c10TrueTile(l, t)) || len(r.savedD[i]) != t.W*tlog.HashSize {
-			g.Fail("a tile passed to SaveTiles is not byte-identical to the true tile", c10TileTok(t), op)
-			return
+			g.Fail("a tile passed to SaveTiles is not byte-identical to the true tile", where+c10TileTok(t), ops...)
+			return false
 		}
 	}
+	return true
 }
 
 func oracleC10(g *Gen, n int) {
